@@ -20,7 +20,7 @@ ASSUMPTIONS = ["fshift is linear in its signal argument (monitored on random com
                "for even n the Nyquist bin of a real signal cannot carry a fractional delay: additivity there is asserted only for "
                "integer shifts or Nyquist-free signals"]
 REQUIRED = {"contract:fshift_shape_dtype": 500, "contract:fshift_input_untouched": 500, "roll_checked": 200,
-            "additivity_checked": 50, "analytic_checked": 50, "corrmax_checked": 50, "pertrace_checked": 50, "nonfinite_inputs": 50,
+            "additivity_checked": 50, "analytic_checked": 50, "corrmax_checked": 50, "pertrace_checked": 50, "shift_vector_reuse_checked": 30, "nonfinite_inputs": 50,
             "shift_waveform_checked": 3, "parabolic_checked": 50}
 CASE_TIMEOUT = 200.0
 
@@ -278,6 +278,23 @@ def run_case(case):
                     res.check(e5 <= (1e-10 if dt == np.float64 else 1e-4), "fshift:per-trace",
                               f"n={n} axis={ax} per-trace fractional shifts differ from scalar calls by {e5:.3g}",
                               counter="pertrace_checked")
+                    # the caller keeps ONE shift vector (negative and positive entries, inside (-m, m) of the shorter length m) and applies it to
+                    # windows of different lengths one after the other: every call delays each trace by the vector's values
+                    m = n - 1 - int(rng.integers(0, max(1, n // 3)))
+                    if m >= 3:
+                        a_ = ax % nd
+                        sw = np.round(rng.uniform(-(m - 1), m - 1, other)) if rng.random() < 0.5 else rng.uniform(-(m - 1), m - 1, other)
+                        sw[0] = -abs(sw[0]) - (1 if abs(sw[0]) < 1 else 0)
+                        sw0 = sw.copy()
+                        for k_, ln in enumerate((n, m, n)):
+                            xs = np.take(x, np.arange(ln), axis=a_)
+                            yk = fshift(xs, sw, axis=ax)
+                            refk = np.stack([np.roll(np.take(xs, i, axis=1 - a_), int(sw0[i])) if float(sw0[i]).is_integer() else
+                                             fshift(np.take(xs, i, axis=1 - a_), float(sw0[i])) for i in range(other)], axis=1 - a_)
+                            ek = np.max(np.abs(yk - refk)) / sc
+                            res.check(ek <= (1e-9 if dt == np.float64 else 1e-4), "fshift:per-trace:shift-vector-reused" + ("" if k_ == 0 else ":later-call"),
+                                      f"n={n} axis={ax} {np.dtype(dt).name}: call {k_ + 1} of 3 with the caller's one shift vector {np.round(sw0[:4], 2).tolist()}.. on a window of {ln} samples: "
+                                      f"err {ek:.3g} against trace-by-trace delays (vector now {np.round(sw[:4], 2).tolist()}..)", counter="shift_vector_reuse_checked")
                 nt += 1
             except Exception as e:
                 res.exception("fshift:exception", e, f"relations n={n} nd={nd} axis={ax}")
